@@ -72,6 +72,7 @@ type role struct {
 var traceOn = os.Getenv("VERIF_TRACE") != ""
 
 type model struct {
+	ageSeen map[int][2]int64 // serial of a stored response -> (time ms, Age) of the latest hit on it
 	prop         string
 	out          *vstat.Outcome
 	w            *world
@@ -1007,6 +1008,25 @@ func (m *model) checkHit(opIdx int, c *clientRec, g *gen, e float64) {
 		if float64(age) > e+1 || float64(age) < e-1 {
 			m.viol("C04", "age", "op %d: hit %d has Age %d but %.3fs passed since the fetch", opIdx, c.ID, age, e)
 		}
+	}
+	// the Age of one stored response keeps counting from the original fetch: between two hits on
+	// the same stored response it advances by the time that passed (whole seconds), wherever the
+	// entry lived in between (memory, the store after an eviction, a re-created cache)
+	// (in the first second after the fetch pike sets no Age of its own and an Age header the upstream
+	// sent shows through; the statement leaves the Age of such responses open, so only hits from the
+	// second second on are compared)
+	if age, err := strconv.Atoi(c.AgeHdr); e >= 1 && (c.AgeHdr == "" || err == nil) {
+		if m.ageSeen == nil {
+			m.ageSeen = map[int][2]int64{}
+		}
+		if prev, ok := m.ageSeen[c.Serial]; ok && c.Serial > 0 {
+			dt := float64(c.EndMs-prev[0]) / 1000
+			da := float64(int64(age) - prev[1])
+			if da > dt+1 || da < dt-1 {
+				m.viol("C08", "age-continuity", "op %d: hit %d on the stored response #%d has Age %d; %.3fs earlier a hit on the same stored response had Age %d", opIdx, c.ID, c.Serial, age, dt, prev[1])
+			}
+		}
+		m.ageSeen[c.Serial] = [2]int64{c.EndMs, int64(age)}
 	}
 	m.checkBody(opIdx, c, g)
 	m.checkHeaders(opIdx, c, g.serial)
